@@ -272,6 +272,7 @@ func VerifMapStats() map[string][2]int {
 }
 
 type verifIterT[K comparable, V any] struct {
+	tails int
 	keys  []K
 	i     int
 	seen  map[K]bool
@@ -418,6 +419,12 @@ func (it *verifIterT[K, V]) next(m map[K]V) bool {
 				visit = it.rand()&1 == 1
 			}
 			if visit {
+				it.tails++
+				if it.tails > 5000 {
+					// a loop that keeps inserting entries which it then visits never
+					// ends under an iteration order the language permits
+					panic("verifIter: unbounded iteration: the loop keeps inserting map entries and visiting them")
+				}
 				if v, ok := m[k]; ok {
 					it.keys = append(it.keys, k)
 					it.i = len(it.keys)
